@@ -179,8 +179,9 @@ def run(rep, tier, seed):
     rep.coverage.update({
         "evaluations": len(pairs) + ncases, "distinct_nontrivial": len(nontrivial),
         "rule": "%d generated and %d hand-made well-formed recipes (canonical: no extensions/empty converter; extended: all "
-                "extensions/bundled converter) x {crlf, trail_comment, trail_space, mid_comment, mid_comment_spaced, "
-                "name_comment_spaced, extra_lines} x %d tapes (one point / up to four / every legal point), plus trail_comment+crlf; "
+                "extensions/bundled converter) x {crlf, trail_comment, trail_space, trail_multi (line already ending in a block comment), "
+                "mid_comment, mid_comment_double (two adjacent comments), mid_comment_spaced, name_comment_spaced, "
+                "qty_comment (between the number tokens of a quantity, after `{`), extra_lines} x %d tapes (one point / up to four / every legal point), plus trail_comment+crlf; "
                 "CRLF on every input without backslash or lone CR: exhaustive strings containing a newline (%d; "
                 "length <= %d over the 16-symbol core alphabet and %s over a 12-symbol comment/metadata "
                 "alphabet), front-matter line arrangements (%d), one-token mutations of generated recipes (%d), "
@@ -192,7 +193,7 @@ def run(rep, tier, seed):
         "legal_points_available": points_avail,
         "excluded_places": excluded,
         "excluded_why": {
-            "inside_braces": "quantity syntax, not words; the statement speaks of comments between words (probe_brace reports what happens)",
+            "inside_braces": "after a WORD inside `{...}` (text values, units): reported by probe_brace only; between the NUMBER tokens of a quantity and directly after `{` the edit qty_comment IS judged (quantity.rs: \"remove spaces and comments in between other tokens\"; ws_comments before the scaling lock)",
             "yaml_lines": "the YAML front matter is not Cooklang: `#`/`--`/blanks mean something else there",
             "before_front_matter": "front matter is recognised only at the top of the document",
             "after_backslash": "a backslash escapes the next character: a comment or line end placed there is not one",
